@@ -538,6 +538,29 @@ func C04(r *h.Run) {
 		}
 	}
 
+	// ---- unary Connect: the whole message has arrived and the transport then reports anything but
+	// a clean end (a reset of the stream - NO_ERROR included -, an unexpected EOF): the body may
+	// have been longer; the call fails ----
+	for _, fin := range []h.FinKind{h.FinRSTNoError, h.FinRSTCancel, h.FinUnexpectedEOF, h.FinOther} {
+		for _, n := range []int{1, 40} {
+			msg := bytes.Repeat([]byte("m"), n)
+			canned := &h.CannedClient{Build: func(*http.Request) (*http.Response, error) {
+				return h.NewResponse(200, http.Header{"Content-Type": {"application/toy"}}, h.NewChunkBody([][]byte{msg}, fin), nil), nil
+			}}
+			var cerr error
+			p := safely(func() {
+				_, cerr = connect.NewClient[h.Raw, h.Raw](canned, "http://verif.local/verif.Svc/M", connect.WithCodec(h.ToyCodec{})).CallUnary(context.Background(), connect.NewRequest(&h.Raw{B: []byte("q")}))
+			})
+			in := map[string]any{"proto": "connect", "kind": "unary", "body_bytes": n, "end": fin.Coq()}
+			r.Eval("unary_unclean_end", fmt.Sprint(fin, n))
+			if p != nil {
+				r.Fail(h.Failure{Key: "terminator/hang-or-panic", Family: "unary_unclean_end", What: fmt.Sprint("panic: ", p), Input: in})
+			} else if cerr == nil {
+				r.Fail(h.Failure{Key: "cut/unary-success-without-terminator", Family: "unary_unclean_end", What: "a unary Connect call succeeded although its response body did not end cleanly", Input: in})
+			}
+		}
+	}
+
 	// ---- no response at all: HTTPClient.Do itself fails, with errors of the shapes net/http
 	// produces (a server that closes the connection before answering: `Post "...": EOF`) and
 	// that wrapping clients produce; all RPC kinds, all protocols: never a success ----
